@@ -47,10 +47,10 @@ P("C10", "exploration",
   {"field.exhaustive-pairs": 65536, "split.n255": 2, "combine.duplicate-index-sets": 100})
 
 P("C12", "exploration",
-  "case = two real Nodes with random identity seeds / peer ids / PoW difficulty 0..8 performing a mutual handshake, plus 64 scalar pairs "
+  "case = two real Nodes with random identity seeds / peer ids / PoW difficulty 0..8 performing a mutual handshake (in half of the cases a second one later, after each side rotated its session key 0..3 times), plus 64 scalar pairs "
   "(boundary 2,3,p-3,p-2) for DH agreement, modexp vs a 128-bit reference, validate_public on boundary values; distinct = (seedA, seedB, difficulty)",
   [H("main", "h_crypto", 600, 60000)], [A_SAN],
-  {"node.handshake-pairs": 100, "dh.scalar-pairs": 1000})
+  {"node.handshake-pairs": 100, "dh.scalar-pairs": 1000, "node.re-handshakes-after-rotation": 50})
 
 P("C13", "exploration",
   "case = one signed message (6 types x versions 1..4 x key lengths) with every single-bit flip (small messages), every truncation, extensions, "
@@ -156,10 +156,10 @@ P("C11", "exploration",
 
 P("C19", "exploration",
   "case 0 = the four leading-zero counters (Node.cpp, StoreProof.cpp, main.cpp via TU inclusion, digest_meets_difficulty) against a bit-by-bit reference on digests with exactly k leading zero bits for ALL k=0..256 and all difficulties 0..255; "
-  "other cases = one surface (handshake / announce / store / bootstrap token) at difficulty 0..8: 512 consecutive nonces through the real validator vs lz_ref(repository digest) >= d, CLI and node agree on the handshake surface, "
+  "other cases = one surface (handshake / announce / store / bootstrap token) at difficulty 0..8: 512 consecutive nonces through the real validator vs lz_ref(repository digest) >= d, CLI and node agree on the handshake surface (in half of the cases the node runs with the default 5 s handshake cool-down and every offer is presented twice in a row: the repeat must get the same verdict), "
   "single-field changes must change the acceptance vector, acceptance rate 2^-d within 6 sigma, cap of 24, every solver's nonce accepted by the matching validator; distinct = (surface, difficulty, case%256)",
   [H("main", "h_node2", 400, 40000, hprop="C19")], [A_SAN, A_OSSL, "the digest of each surface is the repository's own digest function (reached by TU inclusion): the oracle is independent of the field encoding, SHA-256 itself is C08's subject"],
-  {"counters.exhaustive-prefix-classes": 257, "validators.handshake-samples": 20000, "validators.announce-samples": 20000, "validators.store-samples": 20000, "binding.field-variations": 300, "solvers.token": 50})
+  {"counters.exhaustive-prefix-classes": 257, "validators.handshake-samples": 20000, "validators.announce-samples": 20000, "validators.store-samples": 20000, "binding.field-variations": 300, "solvers.token": 50, "validators.handshake-repeats-inside-cooldown": 5000})
 
 P("C20", "exploration",
   "part logic: sequences of 3..12 inbound handshakes on one node (valid; invalid key 0/1/p/p+1/2^32-1; other nonce; different key for the same claimed peer with and without its own valid PoW) at spacings 0 / 1ns / cooldown-1ns / cooldown / beyond, "
@@ -263,10 +263,13 @@ import post_race  # noqa: E402
 P("C36", "exploration",
   "case = one repetition of a daemon-shaped process under ThreadSanitizer with the thread roles and locking discipline of `eph serve`: ControlServer thread (handlers take the node mutex), tick loop (takes the node mutex; virtual time jumps so cleanup and key rotation run), "
   "transport accept thread and per-session reader threads; 2..4 real peer nodes connect / re-connect, announce, push chunks, request, ack concurrently with 4 control-client threads issuing STORE / FETCH / LIST / STATUS / DEFAULTS / DIAGNOSTICS, with sched_yield / short sleeps between harness operations; "
-  "every TSan report is classified by owner object family or function pair; descriptor life-cycle reports (close vs blocked recv, Session::socket) are counted but out of scope; distinct = repetition",
-  [H("main", "h_race", 8, 240, flavour="tsan", qworkers=8, tworkers=8, post=post_race.post_c36, params={"run_ms": 1500})],
-  ["ThreadSanitizer (g++ -fsanitize=thread) sees only the interleavings that occurred and only synchronisation it intercepts", "the daemon shape (who takes node_mutex) is copied from src/main.cpp by hand"],
-  {"race.repetitions": 5, "race.overlap.tick-x-peer": 20, "race.overlap.control-x-peer": 20, "race.peer-ops": 100, "race.control-ops": 60})
+  "every TSan report is classified by owner object family or function pair; descriptor life-cycle reports (close vs blocked recv, Session::socket) are counted but out of scope; distinct = repetition.  Second part: the real `eph serve` (tsan build) for 7 s (quick) / 8 x 12 s (thorough) with key rotation every 5 s, "
+  "2..3 `mtool peer` processes (handshake, connect / re-connect, announce with assigned shards, push chunks, request, ack) and 4 raw control clients (STORE / FETCH stream / LIST / STATUS / DEFAULTS / DIAGNOSTICS / METRICS); the daemon's TSan log is classified the same way",
+  [H("main", "h_race", 8, 240, flavour="tsan", qworkers=8, tworkers=8, post=post_race.post_c36, params={"run_ms": 1500}),
+   dict(name="daemon", py=lambda ctx: drv_cli.c36_daemon(ctx), flavour="tsan", targets=["ephemeralnet"], also_build={"asan": ["mtool"]})],
+  ["the second part runs the real `eph serve` binary of the tsan build (serve loop of src/main.cpp as shipped) with `mtool peer` processes (real Nodes) and raw control clients", "ThreadSanitizer (g++ -fsanitize=thread) sees only the interleavings that occurred and only synchronisation it intercepts", "the daemon shape (who takes node_mutex) is copied from src/main.cpp by hand"],
+  {"race.repetitions": 5, "race.overlap.tick-x-peer": 20, "race.overlap.control-x-peer": 20, "race.peer-ops": 100, "race.control-ops": 60,
+   "daemon36.runs": 1, "daemon36.control-ops": 20, "daemon36.peer-ops": 50})
 
 import drv_cli  # noqa: E402
 
